@@ -429,18 +429,54 @@ static void run_cc1(int argc, char **argv, char *input, char *output) {
   run_subprocess(args);
 }
 
+static bool is_word_char(char c) {
+  return isalnum(c) || c == '_' || c == '$' || (unsigned char)c >= 0x80;
+}
+
+// Returns true if `tok` printed right after `prev` would be read back
+// as different tokens (e.g. `-` `-1` as `--1` or `x` `1` as `x1`).
+static bool avoid_paste(Token *prev, Token *tok) {
+  if (prev->len == 0 || tok->len == 0)
+    return false;
+
+  char a = prev->loc[prev->len - 1];
+  char b = tok->loc[0];
+  bool is_num = (prev->kind == TK_NUM || prev->kind == TK_PP_NUM);
+
+  if (is_word_char(a) || (a == '.' && is_num))
+    return is_word_char(b) || b == '.' || b == '"' || b == '\'' ||
+           (is_num && strchr("eEpP", a) && (b == '+' || b == '-'));
+
+  switch (a) {
+  case '.': return b == '.' || isdigit(b);
+  case '+': return b == '+' || b == '=';
+  case '-': return b == '-' || b == '=' || b == '>';
+  case '<': return b == '<' || b == '=';
+  case '>': return b == '>' || b == '=';
+  case '&': return b == '&' || b == '=';
+  case '|': return b == '|' || b == '=';
+  case '/': return b == '/' || b == '*' || b == '=';
+  case '*': case '%': case '^': case '!': case '=':
+    return b == '=';
+  case '#': return b == '#';
+  }
+  return false;
+}
+
 // Print tokens to stdout. Used for -E.
 static void print_tokens(Token *tok) {
   FILE *out = open_file(opt_o ? opt_o : "-");
 
   int line = 1;
+  Token *prev = NULL;
   for (; tok->kind != TK_EOF; tok = tok->next) {
     if (line > 1 && tok->at_bol)
       fprintf(out, "\n");
-    if (tok->has_space && !tok->at_bol)
+    if ((tok->has_space || (prev && avoid_paste(prev, tok))) && !tok->at_bol)
       fprintf(out, " ");
     fprintf(out, "%.*s", tok->len, tok->loc);
     line++;
+    prev = tok;
   }
   fprintf(out, "\n");
 }
